@@ -351,7 +351,7 @@ func hashesFor(t *rapid.T, label, algo string, hexLen int, names []string, sizes
 func genSizes(t *rapid.T, label string, n int) []int64 {
 	out := make([]int64, n)
 	for i := range out {
-		out[i] = int64(rapid.IntRange(0, 1<<36).Draw(t, label))
+		out[i] = rapid.Int64Range(0, 1<<36).Draw(t, label)
 	}
 	return out
 }
